@@ -196,13 +196,16 @@ def resolveFromBlock (verify : FHash → Nat → VRes) (h : Nat) (fl : List (Pee
   if best < threshold then .error .errNoMajority else
   .ok ((fl.filter (fun x => count x.2 < best)).map (·.1))
 
+/-- the test of phase 1 for one entry of the header map -/
+def p1cond (fl : List (Peer × FHash)) (pm : Peer × Msg) (i : Nat) : Bool :=
+  match lookupF fl pm.1 with
+  | none => true
+  | some f => !(pm.2.hashes[i]? == some f)
+
 /-- phase 1 of `detectBadPeers`: peers in the header map that did not serve
 the filter, or whose filter does not hash to what they advertised -/
 def phase1 (fl : List (Peer × FHash)) (hs : List (Peer × Msg)) (i : Nat) : List Peer :=
-  (hs.filter (fun pm =>
-    match lookupF fl pm.1 with
-    | none => true
-    | some f => !(pm.2.hashes[i]? == some f))).map (·.1)
+  (hs.filter (fun pm => p1cond fl pm i)).map (·.1)
 
 /-- `detectBadPeers`.  `earlyReturn` = the `if len(badPeers) != 0 { return }`
 after phase 1 is present in the source (`Gen.CFHeaders.detectEarlyReturn`). -/
@@ -310,6 +313,171 @@ def hardPass (interval : Nat) (hard : Nat → Option Hdr) (s : St) (cp : List (P
   let badp := (cp.filter (fun pc => contradictsHard interval hard pc.2)).map (·.1)
   (ban s badp reasonCheckpoint, cp.filter (fun pc => !contradictsHard interval hard pc.2))
 
+/-! ### `resolveConflict` -/
+
+inductive RCOut where
+  | ok (cps : List Hdr)
+  | errNoCp | errNoLong | errBaseline | errMismatched
+  | t (e : TOut)
+deriving DecidableEq, Repr
+
+/-- "make sure we're working off the same baseline": zero = unset -/
+def baselineGo (acc : Hdr) : List (Peer × Msg) → Bool
+  | [] => true
+  | pm :: r =>
+    if acc = 0 then baselineGo pm.2.prev r
+    else if acc ≠ pm.2.prev then false else baselineGo acc r
+
+def pickList (cp : List (Peer × List Hdr)) (pick : Nat) : RCOut :=
+  match cp[pick % cp.length]? with
+  | none => .errMismatched
+  | some pc => .ok pc.2
+
+/-- the end of `resolveConflict`: drop the lists of the peers banned in the loop
+and of the peers that did not answer the cfheaders query (banned, reason 4),
+then test sanity again -/
+def rcFinish (interval : Nat) (pick : Nat) (bansBefore : Nat) (cp2 : List (Peer × List Hdr)) (s2 : St)
+    (hs2 : List (Peer × Msg)) : St × RCOut :=
+  let bannedNow := (s2.bans.drop bansBefore).map (·.1)
+  let cp3 := cp2.filter (fun pc => !bannedNow.contains pc.1)
+  let quiet := (cp3.filter (fun pc => !(hs2.any (fun pm => pm.1 == pc.1)))).map (·.1)
+  let s3 := ban s2 quiet reasonCheckpoint
+  let cp4 := cp3.filter (fun pc => hs2.any (fun pm => pm.1 == pc.1))
+  (s3, match checkSanity interval s3.fstore cp4 with
+       | none => pickList cp4 pick
+       | some _ => .errMismatched)
+
+/-- the conflict arm of `resolveConflict`: fetch the cfheaders of the interval
+in question from everybody, find the liars with the detection loop -/
+def rcConflict (interval : Nat) (s1 : St) (net : Net) (cp2 : List (Peer × List Hdr)) (start n : Nat) :
+    St × RCOut :=
+  let hs := gather s1 net n
+  if !baselineGo 0 hs then (s1, .errBaseline) else
+  match idxLoop net start (List.range n) s1 hs with
+  | (s2, .error e) => (s2, .t e)
+  | (s2, .ok hs2) => rcFinish interval net.pick s1.bans.length cp2 s2 hs2
+
+/-- number of cfheaders `getCFHeadersForAllPeers start` asks for -/
+def batchLenFrom (s : St) (start : Nat) : Nat :=
+  let btH := s.blocks.length - 1
+  (if btH - start ≥ maxPerMsg then start + maxPerMsg - 1 else btH) - start + 1
+
+/-- `resolveConflict`; `interval` = `wire.CFCheckptInterval`, `hard` = the
+hard-coded filter-header checkpoints of the network -/
+def resolveConflict (interval : Nat) (hard : Nat → Option Hdr) (s : St) (net : Net)
+    (cp : List (Peer × List Hdr)) : St × RCOut :=
+  let s1 := (hardPass interval hard s cp).1
+  let cp1 := (hardPass interval hard s cp).2
+  if cp1.isEmpty then (s1, .errNoCp) else
+  match checkSanity interval s1.fstore cp1 with
+  | none => (s1, pickList cp1 net.pick)
+  | some d =>
+    let cp2 := cp1.filter (fun pc => !(decide (pc.2.length < d)))
+    if cp2.isEmpty then (s1, .errNoLong) else
+    rcConflict interval s1 net cp2 (d * interval) (batchLenFrom s1 (d * interval))
+
+/-! ### `getCheckpointedCFHeaders` -/
+
+def perQuery : Nat := 2
+
+/-- one `cfheaders` message reaching `handleResponse`: from `peer`, in answer to
+the query that starts at checkpoint index `k` -/
+structure CpEv where
+  peer   : Peer
+  k      : Nat
+  stopOk : Bool
+  prev   : Hdr
+  hashes : List FHash
+deriving DecidableEq, Repr
+
+/-- `verifyCheckpoint` -/
+def verifyCp (H : FHash → Hdr → Hdr) (prevCp nextCp prev : Hdr) (hashes : List FHash) : Bool :=
+  prevCp == prev && ((chainFrom H prev hashes).getLast?).getD prev == nextCp
+
+/-- `handleResponse`: `some true` = delivered to the loop, `some false` = banned, `none` = ignored -/
+def handleResp (H : FHash → Hdr → Hdr) (genesis : Hdr) (cps : List Hdr) (startInt : Nat) (ev : CpEv) :
+    Option Bool :=
+  if !ev.stopOk then none else
+  if ev.k < startInt || ev.k ≥ cps.length || (ev.k - startInt) % perQuery != 0 then none else
+  let prevCp := if ev.k = 0 then genesis else (cps[ev.k - 1]?).getD 0
+  let nextIdx := if ev.k + perQuery - 1 ≥ cps.length then cps.length - 1 else ev.k + perQuery - 1
+  some (verifyCp H prevCp ((cps[nextIdx]?).getD 0) ev.prev ev.hashes)
+
+/-- the loop's variables -/
+structure CpLoop where
+  st      : St
+  cur     : Hdr
+  curH    : Nat
+  curInt  : Nat
+  initial : Hdr
+  cache   : List (Nat × Hdr × List FHash)
+  done    : Bool := false
+  panic   : Bool := false
+
+/-- the first-interval re-basing: while nothing has been written yet
+(`curHeader == initialFilterHeader`) the response is cut to start right above
+our tip and its previous header is replaced by our tip.  `arrStart` is the
+start height of the response that just arrived (what the Go code uses). -/
+def rebase (c : CpLoop) (e : Nat × Hdr × List FHash) (arrStart : Nat) : Hdr × List FHash :=
+  if c.cur == c.initial then (c.cur, e.2.2.drop (c.curH + 1 - arrStart)) else (e.2.1, e.2.2)
+
+/-- the inner `for`: write cached responses while the next expected one is there -/
+def cpInner (H : FHash → Hdr → Hdr) (interval : Nat) (ncps : Nat) (arrStart : Nat) : Nat → CpLoop → CpLoop
+  | 0, c => c
+  | fuel + 1, c =>
+    match c.cache.find? (fun e => e.1 == c.curInt) with
+    | none => c
+    | some e =>
+      match c.st.blocks[(min (e.1 + perQuery) ncps) * interval]? with
+      | none => { c with cache := c.cache.filter (fun x => x.1 != c.curInt), panic := true }
+      | some stopB =>
+        match writeMsg H c.st (rebase c e arrStart).1 stopB (rebase c e arrStart).2 with
+        | (st', .ok last e') =>
+          cpInner H interval ncps arrStart fuel
+            { c with st := st', cur := last, curH := e', curInt := e' / interval,
+                     cache := c.cache.filter (fun x => x.1 != c.curInt) }
+        | (st', _) => { c with st := st', cache := c.cache.filter (fun x => x.1 != c.curInt), panic := true }
+
+/-- one accepted response taken from `headerChan` -/
+def cpTake (H : FHash → Hdr → Hdr) (interval : Nat) (ncps : Nat) (c : CpLoop) (ev : CpEv) : CpLoop :=
+  let startHeight := ev.k * interval + 1
+  let lastHeight := startHeight + ev.hashes.length - 1
+  if lastHeight ≤ c.curH then c else
+  let cache' := (ev.k, ev.prev, ev.hashes) :: c.cache.filter (fun x => x.1 != ev.k)
+  let c1 := cpInner H interval ncps startHeight (cache'.length + 1) { c with cache := cache' }
+  if c1.panic then c1 else
+  if c1.curInt ≥ ncps then { c1 with done := true } else c1
+
+def cpEvents (H : FHash → Hdr → Hdr) (interval : Nat) (genesis : Hdr) (cps : List Hdr) (startInt : Nat) :
+    List CpEv → CpLoop → CpLoop
+  | [], c => c
+  | ev :: evs, c =>
+    match handleResp H genesis cps startInt ev with
+    | none => cpEvents H interval genesis cps startInt evs c
+    | some false =>
+      cpEvents H interval genesis cps startInt evs { c with st := ban c.st [ev.peer] reasonCheckpoint }
+    | some true =>
+      if c.done || c.panic then cpEvents H interval genesis cps startInt evs c
+      else cpEvents H interval genesis cps startInt evs (cpTake H interval cps.length c ev)
+
+inductive CPOut where
+  | ok | panic
+deriving DecidableEq, Repr
+
+/-- `getCheckpointedCFHeaders` fed with the responses `evs` in arrival order -/
+def cpRound (H : FHash → Hdr → Hdr) (interval : Nat) (s : St) (cps : List Hdr) (evs : List CpEv) :
+    St × CPOut :=
+  match s.fstore.getLast? with
+  | none => (s, .panic)
+  | some cur =>
+    let curH := s.fstore.length - 1
+    let startInt := curH / interval
+    if startInt ≥ cps.length then (s, .ok) else
+    if s.blocks.length ≤ cps.length * interval then (s, .panic) else
+    let c := cpEvents H interval ((s.fstore.head?).getD 0) cps startInt evs
+      { st := s, cur := cur, curH := curH, curInt := startInt, initial := cur, cache := [] }
+    (c.st, if c.panic then .panic else .ok)
+
 /-! ### state machine -/
 
 inductive Op where
@@ -317,18 +485,24 @@ inductive Op where
   | rb (h : Nat)
   | wr (prev : Hdr) (stop : Blk) (hashes : List FHash)
   | tip (net : Net)
+  | resolve (interval : Nat) (hard : Nat → Option Hdr) (net : Net) (cp : List (Peer × List Hdr))
+  | cp (interval : Nat) (cps : List Hdr) (evs : List CpEv)
 
 inductive Out where
   | unit
   | rb (ok : Bool)
   | w (o : WOut)
   | t (o : TOut)
+  | rc (o : RCOut)
+  | c (o : CPOut)
 
 def step (H : FHash → Hdr → Hdr) (filterFirst : Bool) (s : St) : Op → St × Out
   | .ext ids => ({ s with blocks := s.blocks ++ ids }, .unit)
   | .rb h => let r := rollBackToHeight filterFirst s h; (r.1, .rb r.2)
   | .wr prev stop hashes => let r := writeMsg H s prev stop hashes; (r.1, .w r.2)
   | .tip net => let r := tipRound H s net; (r.1, .t r.2)
+  | .resolve interval hard net cp => let r := resolveConflict interval hard s net cp; (r.1, .rc r.2)
+  | .cp interval cps evs => let r := cpRound H interval s cps evs; (r.1, .c r.2)
 
 def run (H : FHash → Hdr → Hdr) (filterFirst : Bool) (s : St) : List Op → St
   | [] => s
